@@ -30,6 +30,22 @@ for _h in (0, 1000, 2041, 2044, 2045, 2046, 2047):
               "2044..2047 each have a unit, so the wrap falls at every position inside the unit)" % _h,
         what="exactly one displayed frame per temporal unit: entries head..head+k-2 complete and hidden, entry head+k-1 complete and shown, wrap-around at 2048 included; 0 iff incomplete; byte total"))
 
+from units.c03 import HDR, DRAIN, STUBS as STUBS03
+SHOWEX = {"kind": "slice", "file": "Source/Lib/Encoder/Codec/EbPacketizationProcess.c", "func_re": r"^void \*packetization_kernel\(",
+          "first": "if (pcs_ptr->parent_pcs_ptr->has_show_existing) {", "last": "svt_metadata_array_free(&temp_entry->metadata);",
+          "epilogue": ["}"], "name": "verif_c02_showex",
+          "params": "PictureControlSet *pcs_ptr, SequenceControlSet *scs_ptr, EncodeContext *encode_context_ptr, PacketizationReorderEntry *queue_entry_ptr"}
+UNITS.append(Unit(
+    uid="U02.6.showex_stage", prop="C02", harness="harness/c03_packet.c", entry="h_showex", mode="plain", defines=["U02_SHOWEX"],
+    functions=["packetization_kernel [block slice: show-existing header staging]"], slice_spec=[HDR, DRAIN, SHOWEX],
+    replace_calls=dict(STUBS03, realloc_output_bitstream="stub_realloc_bs", bitstream_reset="stub_bs_reset",
+                       write_metadata_av1="stub_write_metadata", write_frame_header_av1="stub_write_fh",
+                       svt_metadata_array_free="stub_md_free", svt_metadata_size="stub_md_size"),
+    keep_bodies=["verif_c02_showex"], canaries=2, min_obligations=10, cover_functions=[], timeout=300,
+    what="a picture that re-shows a stored frame stages, in the (recycled) queue entry's own bitstream: reset, then "
+         "the metadata OBU, then a show_existing frame header - the reset happens exactly once and before the writes "
+         "whether or not metadata is present (a stale header would give two displayed frames in one temporal unit)",
+    assumptions=["block slice; the writers are logging stubs (their byte-level output is not checked here)"]))
 META = {"C02": {
     "level": "proof",
     "explanation": "Framing layer: inverse-pair lemmas between the encoder's writers and the decoder's readers (leb128, "
